@@ -121,7 +121,7 @@ func closeRings(r *fw.Rand, g *model.G) {
 func c09Run(c *fw.Ctx, idx int) {
 	r := c.R
 	kind := c09Kinds[r.Intn(len(c09Kinds))]
-	layout := c09Layouts[r.Intn(len(c09Layouts))]
+	layout := gen.PickLayout(r, c09Layouts)
 	xyClass := r.Intn(5)
 	g := gen.Shape(r, kind, layout, gen.SmallInt, gen.ShapeOpts{CoordFn: c09CoordFn(xyClass), Big: true, MaxPts: 8})
 	closed := r.Chance(7, 10)
